@@ -501,6 +501,162 @@ fn gen_hist(r: &mut Rng, tier: &Tier, out: &mut Vec<String>) {
     }
 }
 
+// ------------------------------------------------------------------ HPACK state poisoning histories
+fn hp_insert(name: &[u8], val: &[u8]) -> Vec<u8> { [&[0x40u8, name.len() as u8][..], name, &[val.len() as u8][..], val].concat() }
+/// header-block prefixes that change decoder state (table size, table contents) and decode fine
+fn hp_mutations(r: &mut Rng) -> Vec<u8> {
+    let mut v = Vec::new();
+    match r.below(12) {
+        0 | 1 | 2 => v.push(0x20),                                   // size update to 0
+        3 => v.push(0x21),                                           // to 1
+        4 => v.extend([0x3f, 0x01]),                                 // to 32
+        5 => v.extend([0x3f, 0x0a]),                                 // to 41: no entry fits (32 + name + value)
+        6 => v.extend([0x3f, 0x0b + r.below(20) as u8]),             // just enough for one small entry
+        7 => { v.push(0x20); v.extend([0x3f, 0xe1, 0x1f]); }         // to 0 then back to 4096
+        8 => { for i in 0..1 + r.below(4) { v.extend(hp_insert(format!("x-j{}", i).as_bytes(), b"junk")); } }
+        9 => { v.extend(hp_insert(b"x-a", b"1")); v.push(0x20); }
+        10 => { v.push(0x20); v.extend(hp_insert(b"x-a", b"1")); }
+        _ => {}
+    }
+    v
+}
+/// suffixes on which the HPACK decoder fails
+fn hp_failures(r: &mut Rng) -> Vec<u8> {
+    match r.below(16) {
+        0 => vec![0x7f],                                             // truncated integer (literal, name index)
+        1 => vec![0xff],                                             // truncated integer (indexed)
+        2 => vec![0x3f],                                             // truncated size update
+        3 => { let mut v = vec![0x40, 0x0a]; v.extend(b"custom-key"); v.push(0x0d); v.extend(b"custom-val"); v } // truncated value
+        4 => vec![0x00, 0x05, b'a'],                                 // truncated name
+        5 => vec![0x40, 0x03, b'x', b'-', b'a', 0x81, 0xff],         // Huffman: 8 bits of padding
+        6 => vec![0x40, 0x03, b'x', b'-', b'a', 0x84, 0xff, 0xff, 0xff, 0xff], // Huffman: EOS in the string
+        7 => vec![0x40, 0x03, b'x', b'-', b'a', 0x81, 0x00],         // Huffman: padding not all ones
+        8 => vec![0xbe],                                             // index 62 with an empty table
+        9 => vec![0xfe],                                             // index 126
+        10 => vec![0x80],                                            // index 0
+        11 => vec![0xff, 0xff, 0xff, 0xff, 0xff, 0xff, 0xff, 0xff, 0xff, 0xff, 0x7f], // oversize integer
+        12 => vec![0x40, 0x7f, 0xff, 0xff, 0xff, 0x7f],              // oversize string length
+        13 => vec![0x7e, 0x01],                                      // literal with name index 62 (out of range), value cut
+        14 => vec![0x0f, 0xff, 0x01, 0x01, b'a'],                    // literal without indexing, name index out of range
+        _ => vec![0x1f],                                             // truncated integer (never indexed)
+    }
+}
+/// a request / response that changes HPACK decoder state and then fails to decode (or fails at frame level after a good block)
+fn h2_poison(r: &mut Rng, response: bool) -> Vec<u8> {
+    let mut block = hp_mutations(r);
+    if r.chance(2, 3) { if response { block.push(0x88); } else { block.extend([0x82, 0x86, 0x84]); } }
+    if r.chance(1, 3) { block.extend(hp_mutations(r)); }
+    let mut b: Vec<u8> = if response { Vec::new() } else { b"PRI * HTTP/2.0\r\n\r\nSM\r\n\r\n".to_vec() };
+    if r.chance(3, 4) { b.extend(h2f(4, 0, 0, if r.chance(1, 2) { &[] } else { &[0, 3, 0, 0, 0, 100] }, None)); }
+    let sid = if response { 1 } else { 1 + 2 * r.below(3) as u32 };
+    match r.below(8) {
+        0 => { // the block decodes; a second HEADERS frame on the stream fails at frame level (PADDED without pad length)
+            b.extend(h2f(1, 0x4, sid, &block, None)); b.extend(h2f(1, 0x0d, sid, &[], None)); }
+        1 => { // the block decodes; trailers with a pad length larger than the frame
+            b.extend(h2f(1, 0x4, sid, &block, None)); b.extend(h2f(1, 0x0d, sid, &[200, 0x82], None)); }
+        2 => { // split over HEADERS + CONTINUATION
+            block.extend(hp_failures(r)); let k = r.below(block.len() as u64 + 1) as usize;
+            b.extend(h2f(1, 0x1, sid, &block[..k], None)); b.extend(h2f(9, 0x4, sid, &block[k..], None)); }
+        3 => { // priority fields in front of the block
+            block.extend(hp_failures(r)); let mut p = vec![0, 0, 0, 0, 16]; p.extend(&block); b.extend(h2f(1, 0x25, sid, &p, None)); }
+        _ => { block.extend(hp_failures(r)); b.extend(h2f(1, 0x5, sid, &block, None)); }
+    }
+    b
+}
+/// well-formed messages that depend on a clean decoder: they insert entries and refer back to them
+fn h2_probe(r: &mut Rng, response: bool) -> Vec<u8> {
+    let mut block: Vec<u8> = Vec::new();
+    if response { block.push(0x88); block.extend([0x76, 0x05]); block.extend(b"nginx"); }
+    else { block.extend([0x82, 0x87, 0x84, 0x41, 0x0b]); block.extend(b"example.com"); }
+    match r.below(4) {
+        0 => { block.extend(hp_insert(b"x-foo", b"bar")); block.push(0xbe); }
+        1 => { block.extend(hp_insert(b"x-foo", b"bar")); block.extend(hp_insert(b"x-baz", b"qux")); block.extend([0xbe, 0xbf]); }
+        2 => { block.extend(hp_insert(b"x-big", &vec![b'v'; 100])); block.push(0xbe); }
+        _ => { block.extend(hp_insert(b"x-foo", b"bar")); block.extend([0x7e, 0x03]); block.extend(b"two"); block.push(0xbe); } // name taken from index 62
+    }
+    let mut b: Vec<u8> = if response { Vec::new() } else { b"PRI * HTTP/2.0\r\n\r\nSM\r\n\r\n".to_vec() };
+    b.extend(h2f(4, 0, 0, &[0, 3, 0, 0, 0, 100], None));
+    b.extend(h2f(1, 0x5, 1, &block, None));
+    b
+}
+/// one TCP connection carrying the given client and server bytes (addresses 10.2.x.y <-> 93.184.217.z derived from id)
+pub fn conn_frames(r: &mut Rng, id: u64, v6: bool, sport: u16, client: &[u8], server: &[u8]) -> Vec<Vec<u8>> {
+    let cport = 30000 + (id % 20000) as u16;
+    let c4 = [10, 2, (id / 200 % 250) as u8, 1 + (id % 200) as u8]; let s4 = [93, 184, 217, 1 + (id % 200) as u8];
+    let mut c6 = [0u8; 16]; c6[0] = 0x20; c6[1] = 2; c6[13] = (id / 50000) as u8; c6[14] = (id / 200 % 250) as u8; c6[15] = 1 + (id % 200) as u8;
+    let mut s6 = [0u8; 16]; s6[0] = 0x20; s6[1] = 2; s6[7] = 7; s6[15] = 3;
+    let isn_c = 1000 + r.below(1 << 30) as u32; let isn_s = 1000 + r.below(1 << 30) as u32;
+    let mk = |from_client: bool, t: Tcp| -> Vec<u8> {
+        if v6 { let ip = if from_client { Ip6::new(c6, s6) } else { Ip6::new(s6, c6) }; ether6(&ip, &t) }
+        else { let ip = if from_client { Ip4::new(c4, s4) } else { Ip4::new(s4, c4) }; ether4(&ip, &t) }
+    };
+    let mut out = Vec::new();
+    let mut syn = Tcp::new(cport, sport, SYN); syn.seq = isn_c; syn.options = [opt_mss(1460), opt_sackok(), opt_ts(1000, 0), opt_nop(), opt_ws(7)].concat();
+    out.push(mk(true, syn));
+    let mut sa = Tcp::new(sport, cport, SYN | ACK); sa.seq = isn_s; sa.ack = isn_c.wrapping_add(1); sa.options = [opt_mss(1460), opt_sackok(), opt_ts(5000, 1000), opt_nop(), opt_ws(7)].concat();
+    out.push(mk(false, sa));
+    let mut ack = Tcp::new(cport, sport, ACK); ack.seq = isn_c.wrapping_add(1); ack.ack = isn_s.wrapping_add(1);
+    out.push(mk(true, ack));
+    for (from_client, bytes) in [(true, client), (false, server)] {
+        if bytes.is_empty() { continue; }
+        let mut cuts = vec![0usize, bytes.len()];
+        // a cut, never inside the first 5 bytes (the TLS analyzer needs the record header in the first segment)
+        if bytes.len() > 12 && r.chance(1, 3) { cuts.push(5 + r.below(bytes.len() as u64 - 5) as usize); }
+        cuts.sort(); cuts.dedup();
+        for w in cuts.windows(2) {
+            let (sp, dp, seq, ackn) = if from_client { (cport, sport, isn_c, isn_s) } else { (sport, cport, isn_s, isn_c) };
+            let mut d = Tcp::new(sp, dp, PSH | ACK); d.seq = seq.wrapping_add(1 + w[0] as u32); d.ack = ackn.wrapping_add(1); d.payload = bytes[w[0]..w[1]].to_vec();
+            out.push(mk(from_client, d));
+        }
+    }
+    let mut fin = Tcp::new(cport, sport, FIN | ACK); fin.seq = isn_c.wrapping_add(1 + client.len() as u32); fin.ack = isn_s.wrapping_add(1);
+    out.push(mk(true, fin));
+    out
+}
+fn gen_hist_state(r: &mut Rng, tier: &Tier, out: &mut Vec<String>) {
+    let h1: Vec<Vec<u8>> = http1_samples(r);
+    let h2: Vec<Vec<u8>> = h2_samples(r, false);
+    // parser-level instances: Http2Parser (p2), Http2Processor (pc), HttpProcessors (hp); the item right before the probes is a
+    // poison (a later successful parse would clean up after it), probes in both directions
+    for e in ["p2", "pc", "hp"] {
+        for i in 0..tier.scale(260, 2600) {
+            let n = r.below(5) as usize;
+            let mut junk: Vec<Vec<u8>> = (0..n).map(|_| match r.below(5) { 0 => r.pick(&h1[..]).clone(), 1 => r.pick(&h2[..]).clone(), 2 => { let d = r.chance(1, 2); h2_probe(r, d) } _ => { let d = r.chance(1, 3); h2_poison(r, d) } }).collect();
+            junk.push(h2_poison(r, i % 3 == 2));
+            let probes = match r.below(3) { 0 => vec![h2_probe(r, false)], 1 => vec![h2_probe(r, true)], _ => vec![h2_probe(r, false), h2_probe(r, true)] };
+            out.push(format!("H {} {} | {}", e, join_hex(&junk), join_hex(&probes)));
+        }
+    }
+    // packet level: connections carrying the poisons (request side, response side, or both), then a probe connection
+    // with a request AND a response that need a clean decoder; also failed TLS / HTTP/1 connections in front of TLS / HTTP/1 probes
+    let mut id = 100_000u64;
+    for (e, count) in [("h", tier.scale(150, 1500)), ("u", tier.scale(90, 900)), ("ph", tier.scale(10, 100)), ("l", tier.scale(60, 600)), ("pl", tier.scale(4, 40))] {
+        for _ in 0..count {
+            let mut junk: Vec<Vec<u8>> = Vec::new();
+            let nconn = 1 + r.below(3);
+            let tls = e == "l" || e == "pl";
+            for k in 0..nconn {
+                id += 1;
+                let last = k + 1 == nconn;
+                let (sport, c, s): (u16, Vec<u8>, Vec<u8>) = if tls {
+                    let h = client_hello(r); let lies = hello_lies(r, &h); (443, r.pick(&lies[..]).clone(), Vec::new())
+                } else if last || r.chance(2, 3) {
+                    match r.below(3) { 0 => (80, h2_poison(r, false), Vec::new()), 1 => (80, h2_probe(r, false), h2_poison(r, true)), _ => (80, h2_poison(r, false), h2_poison(r, true)) }
+                } else { (80, r.pick(&h1[..]).clone(), r.pick(&h1[..]).clone()) };
+                let v6 = r.chance(1, 5);
+                junk.extend(conn_frames(r, id, v6, sport, &c, &s));
+                if r.chance(1, 4) { let n = r.below(60) as usize; junk.push(r.bytes(n)); }
+            }
+            id += 1;
+            let v6 = r.chance(1, 5);
+            let probe = if tls { let h = client_hello(r); conn_frames(r, id, v6, 443, &h, &[]) }
+                        else if r.chance(5, 6) { let (q, s) = (h2_probe(r, false), h2_probe(r, true)); conn_frames(r, id, v6, 80, &q, &s) }
+                        else { conn_frames(r, id, v6, 80, b"GET /p HTTP/1.1\r\nHost: probe.example\r\nUser-Agent: curl/7.68.0\r\nAccept: */*\r\n\r\n", b"HTTP/1.1 200 OK\r\nServer: nginx/1.18.0\r\nContent-Length: 0\r\n\r\n") };
+            out.push(format!("H {} {} | {}", e, join_hex(&junk), join_hex(&probe)));
+        }
+    }
+}
+
 // ------------------------------------------------------------------ inputs at the 64 KiB bounds
 fn gen_big(r: &mut Rng, tier: &Tier, out: &mut Vec<String>) {
     let mut streams: Vec<Vec<u8>> = Vec::new();
@@ -540,4 +696,5 @@ pub fn gen(r: &mut Rng, tier: &Tier, out: &mut Vec<String>) {
     gen_entry_frames(r, tier, out);
     gen_entry_streams(r, tier, out);
     gen_hist(r, tier, out);
+    gen_hist_state(r, tier, out);
 }
